@@ -3,6 +3,16 @@
 import json, os, sys
 HERE = os.path.dirname(os.path.abspath(__file__))
 CLAIMED = {
+ "C14": ("model_checking",
+         "exhaustive enumeration of template forms x member combinations x per-form value lattices x entry points, each driven through the depth-3 protocol construct -> write -> read -> compare -> write -> read on the real library",
+         "Every template of templates.py with every accepted combination of optional / enabled / group / groupOptional / dependency members, every value of the form's lattice (extreme numbers, strings that look like other value kinds, entities as uuid / string / Entity, None when disabled), dependency and group-leader pairs in both orders, values supplied in the ui.json, through set_data_value and through the data setter; thorough adds every ordered pair of forms. Data and enabled states after reading must equal those before writing, a second cycle must be idempotent, promote / demote must be inverse, the JSON text must be standard.",
+         "NaN excluded (documented); an optional parameter holding None and written disabled is the documented normalisation and not judged; everything the library refuses at construction is not judged.",
+         "DESIGN.md §4 C14"),
+ "C20": ("model_checking",
+         "exhaustive enumeration over reflectively discovered survey pairs x linking direction x edit / copy / re-open histories (prefix-sharing forked execution of the real library)",
+         "All eight linkable pairs (six EM receiver / transmitter families, tipper receivers / base stations with one or n stations, DC potential / current electrodes) plus MT alone, linked from either side; every shared parameter edited from either side with every domain value, every copy kind (plain, masked, cross-workspace, copy of a copy) from both sides, interleaved with observed and blind re-opens; clauses: both identifiers on both entities (live, raw JSON, re-opened), edits visible on both and stored, partner getters resolve after re-open, copies come with their partner, copies reference each other and not the originals, pairs are independent.",
+         "At most 2 edits and 2 copy generations per history; one geometry per family; discovered pairs are cross-checked against the fixture registry (a pair class without fixture is a harness error).",
+         "DESIGN.md §4 C20"),
  "C08": ("model_checking",
          "exhaustive enumeration of a representability-boundary value lattice per stored type x storage path x (create | set | reopen) histories of depth<=2, executed on the real library; live, raw-HDF5 and re-open observers against a pure representable() oracle",
          "Every NumPy numeric dtype with every representability boundary it can hold (32-bit limits and neighbours, 2^63, float32 max, sub-normals, infinities, NaN, the no-data sentinel and its float neighbours), Unicode / byte strings, comments, blobs, metadata and value maps, written at creation and on a stored entity (ordinary node and concatenated drillhole path), with the old state varied (short, with gap, other dtype / length, none): representable values must read back equal live, raw and after re-open with the format's no-data codes; the rest must be refused and leave the stored value as it was.",
